@@ -41,10 +41,25 @@ def run(tier, seed):
     gs = "2,8,32" if quick else "2,3,4,8,16,32,64,64"
     n = 20 if quick else 150
 
+    def run_driver(cmd, label, env=None):
+        """The Go runtime itself ends the process when it sees an unsynchronised map access ("fatal error: concurrent map
+        read and map write"): that is a data race observed on the real code, reported as such (any other death is inconclusive)."""
+        p = common.run(cmd, env=env, timeout=7200, check=False)
+        if p.returncode != 0:
+            m = re.search(r"fatal error: (concurrent map[^\n]*)", p.stderr)
+            if m:
+                frames = re.findall(r"github\.com/go-openapi/validate\.[\w().*]+", p.stderr)[:4]
+                check.violation(dict(family="concurrent", build=label, clause="DataRaceFree", fatal=m.group(1), frames=frames, stderr_head=p.stderr[:1500]),
+                                "the Go runtime ended the driver: %s (%s) [%s]" % (m.group(1), " / ".join(frames[:2]), label))
+                return False
+            raise Inconclusive("command failed (%d): %s\n%s" % (p.returncode, " ".join(cmd), p.stderr[-3000:]))
+        return True
+
     def conc(job):
         binary, name, args, full = job
         wdc = common.workdir("C05-" + name)
-        common.run([binary, "run-concurrent", "-out", wdc] + [str(a) for a in args], timeout=7200)
+        if not run_driver([binary, "run-concurrent", "-out", wdc] + [str(a) for a in args], name):
+            return
         meta = json.load(open(os.path.join(wdc, "meta.json")))
         cfg = "SPECIFICATION Spec\nINVARIANT Done\nCHECK_DEADLOCK FALSE\nCONSTANT FullStream = %s\n" % ("TRUE" if full else "FALSE")
         nfail = 0
@@ -78,7 +93,8 @@ def run(tier, seed):
 
     def race(job):
         k, v = job
-        common.run([vhr, "run-concurrent", "-seed", str(seed + 10 + k), "-record=false", "-out", os.path.join(wd, "run%d" % k)] + [str(a) for a in v], env=env, timeout=7200)
+        if not run_driver([vhr, "run-concurrent", "-seed", str(seed + 10 + k), "-record=false", "-out", os.path.join(wd, "run%d" % k)] + [str(a) for a in v], "race build %d" % k, env=env):
+            return
         meta = json.load(open(os.path.join(wd, "run%d" % k, "meta.json")))
         check.coverage["evaluations"] += meta["calls"]
         check.coverage["distinct_nontrivial"] += meta["distinct_nontrivial"]
